@@ -22,3 +22,39 @@ Theorem tables_sim_reply_bearing :
                      | _, _ => false
                      end) sim_reply_ids = true.
 Proof. reflexivity. Qed.
+
+(* ---- the simulator's handler table read from terminal/handle.go NOW (translator: simRegistry) ----
+   defaultProtocolHandles in source order: same commands in the same order as Model/Sim.v sim_handles,
+   the same ReplyProtocol, every type registered under its own Protocol(), and the ReplyBody method the
+   handler ends up with (declaring type) is the one the model's [rkind] stands for. *)
+Definition kind_code_ok (k : rkind) (code : N) : bool :=
+  match k with
+  | RGeneral => code =? 0            (* BaseHandle.ReplyBody *)
+  | RRegister => code =? 0x0100
+  | RAuth => code =? 0x0102
+  | RMedia => code =? 0x0801
+  | RFile => code =? 0x1212
+  | REmpty => (code =? 0x1003) || (code =? 65535)   (* T0x1003: nil body; defaultHandle wrapper: nil body *)
+  end.
+
+Theorem tables_sim_registry_ids_and_reply :
+  map (fun p => (fst p, fst (fst (snd p)))) gen_sim_registry =
+  map (fun p => (fst p, fst (snd p))) sim_handles.
+Proof. reflexivity. Qed.
+
+Theorem tables_sim_registry_protocol_is_key :
+  forallb (fun p => fst p =? snd (fst (snd p))) gen_sim_registry = true.
+Proof. reflexivity. Qed.
+
+Theorem tables_sim_registry_reply_body :
+  forallb (fun pq => kind_code_ok (snd (snd (snd pq))) (snd (snd (fst pq))))
+          (combine gen_sim_registry sim_handles) = true /\
+  length gen_sim_registry = length sim_handles.
+Proof. split; reflexivity. Qed.
+
+(* every supported command has a default body in every version and nothing else has one: the keys of
+   default_bodies are exactly versions x the commands of the regenerated table *)
+Theorem tables_sim_default_body_keys :
+  map fst default_bodies =
+  flat_map (fun ver => map (fun p => (ver, fst p)) gen_sim_registry) [V2011; V2013; V2019].
+Proof. reflexivity. Qed.
